@@ -65,6 +65,23 @@ def replay_case(chk, case, remove_pbc, scales=(1, 4, 10)):
             if not case["ties"][i] and not np.allclose(shifted[i], out[i], atol=1e-9, rtol=0):
                 chk.violation("ShiftInvariantOffTies", {"H": case["H"], "ppp": case["ppp"], "scale": scale, "r": case["rs"][i]})
                 return
+    # argument renderings: the grid displacements (and the cell) are integers - passed as integer arrays (site / grid
+    # coordinates) the result must still be the minimum image (a real vector, whatever the input dtype)
+    for dt, Hd in ((np.int64, float), (np.int32, float), (np.int64, np.int64), (np.int16, float)):
+        if np.abs(rs).max() > 30000:
+            continue
+        try:
+            out = np.asarray(remove_pbc(rs.astype(dt), H.astype(Hd), ppp), dtype=float)
+        except Exception as e:  # noqa
+            chk.violation(f"raises:{type(e).__name__}", {"H": case["H"], "ppp": case["ppp"], "dtype": np.dtype(dt).name})
+            return
+        for i in range(len(rs)):
+            if out.shape != rs.shape or not _near_any(out[i], case["imgs"][i], 1):
+                chk.violation("MinImage:integer-dtype argument", {"H": case["H"], "ppp": case["ppp"], "dtype": np.dtype(dt).name,
+                                                                  "cell_dtype": np.dtype(Hd).name, "r": case["rs"][i],
+                                                                  "admissible": case["imgs"][i],
+                                                                  "observed": out[i].tolist() if out.shape == rs.shape else list(out.shape)})
+                return
     # (d,) input: one call per a few rows; the abstraction flattens the (1,d) result
     for i in range(0, len(rs), max(1, len(rs) // 7)):
         o = np.asarray(remove_pbc(rs[i], H, ppp)).reshape(-1)
